@@ -363,7 +363,7 @@ Proof.
       destruct (get_command' true _) as [c1 e1]. destruct (get_command' false _) as [c0 e0]. cbn [fst snd] in *. subst c0.
       destruct c1; cbn [fst snd]; (split; [reflexivity|F2; assumption]). }
   destruct first as [|x first'].
-  - destruct second as [|y second']; [|split; [reflexivity|F2; exact I]].
+  - destruct second as [|y second']; [|apply IH].
     apply Hmain. F2. apply error_line_sim, TextEq_refl.
   - apply Hmain. constructor.
 Qed.
